@@ -464,7 +464,9 @@ def oracle_geonet(case, rec):
     # area weighted connectivity
     if norm > 1e-3:
         rec.label("area_ok")
-        tol_awc = lambda v: (n * EPS_COS * (1 + np.abs(v))) / norm + 1e-6  # noqa
+
+        def tol_awc(v):
+            return (n * EPS_COS * (1 + np.abs(v))) / norm + 1e-6
         inawc = (cos @ A) / norm
         outawc = (A @ cos) / norm
         awc = inawc + outawc if directed else inawc
